@@ -14,8 +14,7 @@ def spec(tier):
     jobs.append(Job("asan", "h_ident", ["--mode=default", "--trials=%d" % (3 * m), "--first=900"], timeout=600, tag="h_ident:specific:asan"))
     jobs.append(Job("hooks", "h_mainq", ["--trials=%d" % (2 * m), "--first=70"], timeout=300, tag="h_mainq"))
     jobs.append(Job("hooks", "h_mainq", ["--mode=cf", "--trials=%d" % (2 * m), "--first=270"], timeout=300, tag="h_mainq:cf"))
-    if tier == "thorough":
-        jobs.append(Job("dbg", "h_ident", ["--mode=default", "--trials=%d" % (6 * m), "--first=2000"], timeout=900, tag="h_ident:specific:dbg"))
+    jobs.append(Job("dbg", "h_ident", ["--mode=default", "--trials=%d" % (6 * m), "--first=2000"], timeout=900, tag="h_ident:specific:dbg"))
     floors = {
         "global_queue_lookups": 80000,
         "assert_queue_scenarios": 200,
